@@ -350,3 +350,21 @@ func CompareAndSwapPointer(p *unsafe.Pointer, o, n unsafe.Pointer) bool {
 	ay()
 	return atomic.CompareAndSwapPointer(p, o, n)
 }
+
+// SimPeek reads the value without a scheduling point and without telling the
+// race detector (white-box snapshots only).
+
+//go:norace
+func (x *Int32) SimPeek() int32 { return *(*int32)(unsafe.Pointer(&x.v)) }
+
+//go:norace
+func (x *Int64) SimPeek() int64 { return *(*int64)(unsafe.Pointer(&x.v)) }
+
+//go:norace
+func (x *Uint32) SimPeek() uint32 { return *(*uint32)(unsafe.Pointer(&x.v)) }
+
+//go:norace
+func (x *Uint64) SimPeek() uint64 { return *(*uint64)(unsafe.Pointer(&x.v)) }
+
+//go:norace
+func (x *Uintptr) SimPeek() uintptr { return *(*uintptr)(unsafe.Pointer(&x.v)) }
